@@ -159,6 +159,11 @@ func (hc *histClient) hello2(kind string, a int, useReal bool) (rec []byte, real
 		innerEdge(inner, a)
 		from, to = 0, 0
 	}
+	if kind == "hello2-ok" && a%3 == 1 && to > from {
+		// the same hello, carried differently: nothing is compressed this time
+		// (what was referenced in the outer hello before now sits in the inner one)
+		from, to = 0, 0
+	}
 	if kind == "hello2-outersni" {
 		if i := outer.Find(echbox.ExtSNI); i >= 0 {
 			outer.Exts[i] = echbox.SNIExt("elsewhere.example")
@@ -197,7 +202,9 @@ func (hc *histClient) hello2(kind string, a int, useReal bool) (rec []byte, real
 		relabel.Suite.AEAD = uint16(1 + int(s.Suite.AEAD)%3)
 		s = &relabel
 	}
-	o2, err := s.SealInto(outer, echIdx, encoded, false)
+	// (hello2-enc-same: the encapsulated key of the first hello is sent again,
+	// covered by the associated data, and the payload continues the first context)
+	o2, err := s.SealInto(outer, echIdx, encoded, kind == "hello2-enc-same")
 	if err != nil {
 		return
 	}
@@ -262,6 +269,7 @@ var hello2Alerts = map[string][]int{
 	"hello2-id":        {alIllegalParameter},
 	"hello2-suite":     {alIllegalParameter},
 	"hello2-enc":       {alIllegalParameter},
+	"hello2-enc-same":  {alIllegalParameter},
 	"hello2-fresh":     {alDecryptError},
 	"hello2-seq":       {alDecryptError},
 	"hello2-sni":       {alIllegalParameter},
@@ -987,7 +995,7 @@ func runHistory(prop string, seed uint64, p *HistoryPlan, b *built, io_ *histIO,
 	res.Sample = map[string]any{"kind": "history", "concurrent": p.Concurrent, "steps": p.Steps}
 }
 
-var cKinds = []string{"hello2-ok", "hello2-ok", "hello2-ok", "hello2-noech", "hello2-id", "hello2-suite", "hello2-enc", "hello2-fresh", "hello2-seq", "hello2-sni", "hello2-sni-case", "hello2-alpn", "hello2-innertype", "hello2-nover", "hello2-outersni", "hello2-suite-pre", "ccs", "ccs", "hs-other", "alert", "appdata"}
+var cKinds = []string{"hello2-ok", "hello2-ok", "hello2-ok", "hello2-noech", "hello2-id", "hello2-suite", "hello2-enc", "hello2-enc-same", "hello2-fresh", "hello2-seq", "hello2-sni", "hello2-sni-case", "hello2-alpn", "hello2-innertype", "hello2-nover", "hello2-outersni", "hello2-suite-pre", "ccs", "ccs", "hs-other", "alert", "appdata"}
 var bKinds = []string{"hrr", "hrr", "sh", "ccs", "appdata", "hs-other", "alert"}
 
 func genC06(seed uint64, idx int) *Plan {
